@@ -887,13 +887,16 @@ func (w *streamWriter) Close() error {
 	}
 
 	w.parent.inStream = false
-	for _, pair := range w.parent.afterStream {
+	// Detach the list first: writing a deferred stream object opens and
+	// closes a stream itself, which must not replay the list again.
+	pending := w.parent.afterStream
+	w.parent.afterStream = nil
+	for _, pair := range pending {
 		err = w.parent.Put(pair.ref, pair.obj)
 		if err != nil {
 			return err
 		}
 	}
-	w.parent.afterStream = w.parent.afterStream[:0]
 
 	return nil
 }
